@@ -846,13 +846,31 @@ func (e *env) c10() {
 	games := e.c.Pick(150, 6000)
 	e.r.Rule = "game histories from valid starts (random play with a shuffling bias towards reversible moves, so positions recur, castling rights get lost and en-passant rights are transient), via MakeMove and via the UCI position command; after every ply Threefold() vs the Lean model vs the art. 9.2.2 count of the rule-book spec over the whole history (capped at 3); non-trivial = ply whose count is >= 2; distinct by (start FEN, move prefix)"
 	rng := e.c.Rng
-	for g := 0; g < games; g++ {
+	// regression corpus: histories that failed before (run first, every time)
+	corpus := []struct {
+		fen   string
+		moves []move.Move
+	}{
+		// D7: the start FEN records an en-passant target (a6) that no pawn can capture; the knight
+		// shuffle returns to the start placement, which the rules count as the second occurrence
+		{"r3k2r/2pb1ppp/2pp1q2/p7/1nP1B3/1P2P3/P2N1PPP/R2QK2R w KQkq a6 0 14", []move.Move{1829, 1635, 2396, 2265}},
+	}
+	for g := -len(corpus); g < games; g++ {
 		var fen string
 		var b *board.Board
-		for {
+		startEPNormal := true
+		var fixed []move.Move
+		if g < 0 {
+			fen, fixed = corpus[g+len(corpus)].fen, corpus[g+len(corpus)].moves
+			b, _, startEPNormal = e.load("C10", fen)
+			if b == nil {
+				continue
+			}
+		}
+		for g >= 0 {
 			var valid bool
 			fen, _ = e.s.Next()
-			b, valid, _ = e.load("C10", fen)
+			b, valid, startEPNormal = e.load("C10", fen)
 			if b != nil && valid {
 				break
 			}
@@ -866,6 +884,9 @@ func (e *env) c10() {
 		mode := 1 + rng.IntN(3)
 		if mode == 2 {
 			n = 135 + rng.IntN(70)
+		}
+		if fixed != nil {
+			mode, n = 0, len(fixed)
 		}
 		if mode == 3 && b.Castles == 0 {
 			for try := 0; try < 50 && (b == nil || b.Castles == 0); try++ {
@@ -927,6 +948,9 @@ func (e *env) c10() {
 			if !found {
 				m = l[rng.IntN(len(l))]
 			}
+			if fixed != nil {
+				m = fixed[i]
+			}
 			last[i%2] = m
 			b.MakeMove(m)
 			ms = append(ms, m)
@@ -949,8 +973,14 @@ func (e *env) c10() {
 				e.r.Count(fmt.Sprintf("count=%d", min(impl[i], 3)), 1)
 			}
 			if is != spec {
+				note := "Threefold() differs from the number of occurrences of the position in the history"
+				if !startEPNormal {
+					// classification used by known_findings.json (D7): the history starts from a FEN whose
+					// en-passant target cannot be captured
+					note += " [start-ep-not-capturable]"
+				}
 				e.r.Fail(common.Mismatch{Property: "C10", Kind: "failing-input", Ops: append(append([]string{}, path...), "three"),
-					Impl: is, Model: model, Spec: spec, Note: "Threefold() differs from the number of occurrences of the position in the history"})
+					Impl: is, Model: model, Spec: spec, Note: note})
 				break
 			} else if is != model {
 				e.r.Fail(common.Mismatch{Property: "C10", Kind: "broken-correspondence", Ops: append(append([]string{}, path...), "three"),
